@@ -7,6 +7,7 @@ import PlasVerif.Proofs.DomCompare
 import PlasVerif.Proofs.DomCompareSpec
 import PlasVerif.Proofs.DomWF
 import PlasVerif.Proofs.DomTreeBelow
+import PlasVerif.Proofs.DomEq
 /-!
 # C06 — the document tree stays a consistent tree under DOM edits
 
@@ -32,8 +33,11 @@ single nodes and fragments) and agreement with the executable Spec (`*_commutes`
 comparison for two nodes of one tree, against the parent chains and against the Spec's `comparePos`.
 `compareDocumentPosition_agrees_all`: equal to the Spec's `comparePos` for every pair of nodes with proper parent chains.
 `unfolding_complete` / `views_fuel_irrelevant`: the driver's recursion fuel unfolds the whole tree of a reachable heap.
-Kept as `…_statement` at the end: `normalize`/`cloneNode` as steps of a history keep the forest invariants (proved part:
-`normalize_clone_keep_forest_partial`), `isEqualNode` of a deep clone, normalisation of fragments under other attribute keys.
+`clone_isEqualNode`: a deep clone is `==` its original both ways (`eqNode`).  `clone_keeps_forest`,
+`normalize_keeps_forest`, `forest_reachable_all`: histories mixing the list operations with `cloneNode(True)` and
+`normalize` stay well-formed forests.
+`normalize_attribute_fragments` (end of file): `normalize` also normalises the fragment a node holds under another
+attribute key (one level; nested attribute fragments are tied by the correspondence only).  No `…_statement` remains.
 -/
 namespace PlasVerif.Properties.C06
 open PlasVerif.Model.Dom PlasVerif.Proofs.Dom PlasVerif.Proofs.DomViews PlasVerif.Proofs.DomSpec
@@ -1126,8 +1130,10 @@ theorem opNormalize_eq (h : Heap) (s : Id) (ho : h.owner s ≠ none) :
 
 /-- **heap-level `normalize` = tree-level `Tree.normalize`** (up to the identity of the fresh text nodes), for
     every unfolding depth up to the fuel; nothing outside the subtree of `s` changes; the heap stays well-formed.
-    Hypotheses made explicit compared with the earlier statement: `WF h`, `s` allocated, `TreeBelow h s`. -/
-theorem normalize_refines_tree (h : Heap) (s : Id) (ha : NoAlias h) (hb : NoAttr2 h) (hwf : WF h) (hs : s < h.next)
+    Hypotheses made explicit compared with the earlier statement: `WF h`, `s` allocated, `TreeBelow h s`; no node of the
+    subtree holds a fragment under another attribute key (nodes elsewhere may). -/
+theorem normalize_refines_tree (h : Heap) (s : Id) (ha : NoAlias h)
+    (hb : ∀ n ∈ (DomTree.abs (fuelOf h) (toLL h) s).ids, h.attr2 n = none) (hwf : WF h) (hs : s < h.next)
     (ht : TreeBelow h s) (g : Nat) (hg : g ≤ fuelOf h) :
     (DomTree.abs g (toLL (normalize (fuelOf h) h s)) s).shape = (DomTree.abs g (toLL h) s).normalize.shape ∧
     NoAlias (normalize (fuelOf h) h s) ∧
@@ -1136,7 +1142,8 @@ theorem normalize_refines_tree (h : Heap) (s : Id) (ha : NoAlias h) (hb : NoAttr
   exact ⟨spec.shape g hg, spec.noAlias, spec.frame⟩
 
 /-- heap-level: normalisation does not change `textContent` -/
-theorem normalize_preserves_textContent_heap (h : Heap) (s : Id) (ha : NoAlias h) (hb : NoAttr2 h) (hwf : WF h) (hs : s < h.next)
+theorem normalize_preserves_textContent_heap (h : Heap) (s : Id) (ha : NoAlias h)
+    (hb : ∀ n ∈ (DomTree.abs (fuelOf h) (toLL h) s).ids, h.attr2 n = none) (hwf : WF h) (hs : s < h.next)
     (ht : TreeBelow h s) (g : Nat) (hg : g + 1 ≤ fuelOf h) :
     textContent (g + 1) (normalize (fuelOf h) h s) s = textContent (g + 1) h s := by
   obtain ⟨hsh, ha', _⟩ := normalize_refines_tree h s ha hb hwf hs ht (g + 1) hg
@@ -1144,7 +1151,8 @@ theorem normalize_preserves_textContent_heap (h : Heap) (s : Id) (ha : NoAlias h
     Proofs.DomTree.textContent_congr hsh, Proofs.DomTree.normalize_textContent]
 
 /-- heap-level: after `normalize` no two text nodes are adjacent anywhere below `s` -/
-theorem normalize_merges_adjacent_text_heap (h : Heap) (s : Id) (ha : NoAlias h) (hb : NoAttr2 h) (hwf : WF h) (hs : s < h.next)
+theorem normalize_merges_adjacent_text_heap (h : Heap) (s : Id) (ha : NoAlias h)
+    (hb : ∀ n ∈ (DomTree.abs (fuelOf h) (toLL h) s).ids, h.attr2 n = none) (hwf : WF h) (hs : s < h.next)
     (ht : TreeBelow h s) (g : Nat) (hg : g ≤ fuelOf h) :
     DomTree.noAdjacentText [DomTree.abs g (toLL (normalize (fuelOf h) h s)) s] = true := by
   obtain ⟨hsh, _, _⟩ := normalize_refines_tree h s ha hb hwf hs ht g hg
@@ -1157,10 +1165,10 @@ theorem normalize_idempotent_heap (h : Heap) (s : Id) (ha : NoAlias h) (hb : NoA
     (ht : TreeBelow h s) (ht' : TreeBelow (normalize (fuelOf h) h s) s) (g : Nat) (hg : g ≤ fuelOf h) :
     (DomTree.abs g (toLL (normalize (fuelOf (normalize (fuelOf h) h s)) (normalize (fuelOf h) h s) s)) s).shape =
       (DomTree.abs g (toLL (normalize (fuelOf h) h s)) s).shape := by
-  have spec := Proofs.DomNormalize.norm_spec (fuelOf h) h s ⟨ha, hb, hwf.1, hs, ht⟩
+  have spec := Proofs.DomNormalize.norm_spec (fuelOf h) h s ⟨ha, fun n _ => hb n, hwf.1, hs, ht⟩
   have hle : (h.next : Nat) ≤ (normalize (fuelOf h) h s).next := spec.next_le
   have spec2 := Proofs.DomNormalize.norm_spec (fuelOf (normalize (fuelOf h) h s)) (normalize (fuelOf h) h s) s
-    ⟨spec.noAlias, spec.noAttr2, spec.closed, Nat.lt_of_lt_of_le hs hle, ht'⟩
+    ⟨spec.noAlias, fun n _ => spec.attr2none n (hb n), spec.closed, Nat.lt_of_lt_of_le hs hle, ht'⟩
   have hg2 : g ≤ fuelOf (normalize (fuelOf h) h s) := by
     simp only [fuelOf] at hg ⊢; exact Nat.le_trans hg (Nat.add_le_add_right hle 2)
   rw [spec2.shape g hg2, Proofs.DomTree.normalize_congr (spec.shape g hg), normalize_idempotent, ← spec.shape g hg]
@@ -1522,53 +1530,214 @@ example : UpChain exC 4 [4, 1, 0] ∧ UpChain exC 2 [2, 1, 0] :=
    .step 2 1 _ (by decide) (.step 1 0 _ (by decide) (.root 0 (by decide)))⟩
 example : compareDocumentPosition exC 4 2 = 2 ∧ compareDocumentPosition exC 2 4 = 4 := by decide
 
+/-! ## a deep clone `isEqualNode` its original -/
+
+/-- **`cloneNode(True)` returns a node that is `==` its original, both ways** (`Node.__eq__` / `isEqualNode`, the model's
+    `eqNode` with the fuel the driver uses): the shapes of the two unfolded trees agree at the depths `h.next` and
+    `h.next + 1` (`clone_spec`), the original's tree is complete at depth `h.next` (`unfolding_complete`, the pigeonhole
+    bound on the height), and equal shapes of complete trees compare equal (`Proofs.DomEq.eq_of_shapes`).
+    Hypothesis added to the earlier statement: `s` is not a fragment (a fragment may list a node twice, and its
+    unfolding need not be a tree). -/
+theorem clone_isEqualNode (h : Heap) (s : Id) (ha : NoAlias h) (hb : NoAttr2 h) (hinv : Inv h) (hac : Acyclic h)
+    (hw : WF h) (hs : s < h.next) (hk : h.kind s ≠ .frag) :
+    eqNode (fuelOf (opClone h s true).1.1) (opClone h s true).1.1 (opClone h s true).1.2 s = true ∧
+    eqNode (fuelOf (opClone h s true).1.1) (opClone h s true).1.1 s (opClone h s true).1.2 = true := by
+  have spec := Proofs.DomClone.clone_spec (fuelOf h) h.next h s ha hb hw.2 hw.1 hs (Nat.le_refl _)
+  simp only [opClone]
+  generalize clone (fuelOf h) h s true = r at spec
+  have hfr : ∀ g : Nat, DomTree.abs g (toLL r.1) s = DomTree.abs g (toLL h) s := by
+    intro g
+    apply Proofs.DomClone.abs_congr
+    intro i hi
+    exact Proofs.DomClone.sameAt_of_sameH (spec.frame i (Proofs.DomClone.abs_ids_lt hw.1 g s hs i hi))
+  have hcomp := Proofs.DomTreeBelow.unfolding_complete hinv hac hw s hk hs h.next (Nat.le_refl _)
+  have s0 := (spec.shape h.next (by simp [fuelOf])).1
+  have s1 := (spec.shape (h.next + 1) (by simp [fuelOf])).1
+  have hle : (h.next : Nat) ≤ r.1.next := spec.next_le
+  exact Proofs.DomEq.eq_of_shapes spec.noAlias spec.noAttr2 h.next r.2 s (fuelOf r.1)
+    (Nat.le_trans (Nat.succ_le_succ hle) (Nat.le_succ _)) (by rw [hfr]; exact s0) (by rw [hfr]; exact s1) (by rw [hfr, hfr]; exact hcomp)
+
+/-- non-vacuity: the element of `exH` (holding two text nodes) and its deep clone -/
+example : eqNode (fuelOf (opClone exH 1 true).1.1) (opClone exH 1 true).1.1 (opClone exH 1 true).1.2 1 = true := by decide
+
 /-! ## `normalize` and `cloneNode(True)` as steps of a history -/
 
-/-- **proved part**: `normalize` keeps `NoAlias`, `NoAttr2`, the owner documents and the well-formedness of the heap;
-    `cloneNode(True)` keeps `NoAlias`, `NoAttr2`, the owner documents and allocates cleanly (nothing listed beyond the
-    counter).  Missing for the full `normalize_clone_keep_forest_statement` below: `Inv` and `Acyclic` for both (the
-    `parentNode` fields of re-appended / fresh nodes and a rank function for the rebuilt subtree are not tracked by
-    `Proofs/DomNormalize.lean` / `Proofs/DomClone.lean`) and the closedness of the lists after a clone. -/
-theorem normalize_clone_keep_forest_partial (h : Heap) (s : Id) (ha : NoAlias h) (hb : NoAttr2 h) (ho : Owned h)
-    (hw : WF h) (hs : s < h.next) (ht : TreeBelow h s) :
-    (NoAlias (normalize (fuelOf h) h s) ∧ NoAttr2 (normalize (fuelOf h) h s) ∧ Owned (normalize (fuelOf h) h s) ∧
-      WF (normalize (fuelOf h) h s)) ∧
-    (NoAlias (opClone h s true).1.1 ∧ NoAttr2 (opClone h s true).1.1 ∧ Owned (opClone h s true).1.1 ∧
-      Proofs.DomClone.Fresh (opClone h s true).1.1) := by
-  have ns := Proofs.DomNormalize.norm_spec (fuelOf h) h s ⟨ha, hb, hw.1, hs, ht⟩
+/-- **`cloneNode(True)` keeps every forest invariant**: after a deep clone of a non-fragment node of a well-formed
+    forest the heap is again a well-formed forest (`NoAlias`, `NoAttr2`, `Inv`, `Acyclic`, `Owned`, `WF`), so a history
+    may go on with any operation.  The recursion fuel of the driver covers the subtree (`unfolding_complete`), so the
+    model never falls back to re-appending an original node; the clone's nodes name their clone parent, are listed
+    once, and the ranks of the old nodes are kept while the fresh nodes are ranked by their allocation order. -/
+theorem clone_keeps_forest (h : Heap) (s : Id) (ha : NoAlias h) (hb : NoAttr2 h) (hinv : Inv h) (hac : Acyclic h)
+    (ho : Owned h) (hw : WF h) (hs : s < h.next) (hk : h.kind s ≠ .frag) :
+    NoAlias (opClone h s true).1.1 ∧ NoAttr2 (opClone h s true).1.1 ∧ Inv (opClone h s true).1.1 ∧
+    Acyclic (opClone h s true).1.1 ∧ Owned (opClone h s true).1.1 ∧ WF (opClone h s true).1.1 := by
   have cs := Proofs.DomClone.clone_spec (fuelOf h) h.next h s ha hb hw.2 hw.1 hs (Nat.le_refl _)
-  exact ⟨⟨ns.noAlias, ns.noAttr2, ns.owned ho, ns.closed, ns.fresh hw.2⟩, ⟨cs.noAlias, cs.noAttr2, cs.owned ho, cs.fresh⟩⟩
+  have hcomp : Proofs.DomClone.Complete (fuelOf h) h s :=
+    ⟨h.next + 1, rfl, Proofs.DomTreeBelow.unfolding_complete hinv hac hw s hk hs (h.next + 1) (Nat.le_succ _)⟩
+  exact ⟨cs.noAlias, cs.noAttr2, cs.inv hinv hw.1 hcomp,
+    Proofs.DomClone.acyclic_of_cloneSpec cs (Nat.le_refl _) hw.1 hac, cs.owned ho, cs.closedAll hw.1, cs.fresh⟩
 
-/-! ## statements carried by the correspondence only (not proved) -/
+/-- non-vacuity: `exH` (an element holding two text nodes) is a well-formed forest -/
+example : Inv exH ∧ Acyclic exH := by
+  refine ⟨⟨?_, ?_⟩, ⟨fun n => if n = 0 then 2 else if n = 1 then 1 else 0, ?_⟩⟩
+  · intro n c hn hc
+    have : n = 1 := by
+      by_cases e : n = 1
+      · exact e
+      · simp [exH, opAppend, splices, create, init, upd, fuelOf, append, appendLeaf, setPO, rawAppend, e] at hc
+    subst this
+    have : c = 2 ∨ c = 3 := by
+      simpa [exH, opAppend, splices, create, init, upd, fuelOf, append, appendLeaf, setPO, rawAppend] using hc
+    rcases this with rfl | rfl <;> decide
+  · intro n _
+    by_cases e : n = 1
+    · subst e; decide
+    · simp [exH, opAppend, splices, create, init, upd, fuelOf, append, appendLeaf, setPO, rawAppend, e]
+  · intro n c hc
+    have : n = 1 := by
+      by_cases e : n = 1
+      · exact e
+      · simp [exH, opAppend, splices, create, init, upd, fuelOf, append, appendLeaf, setPO, rawAppend, e] at hc
+    subst this
+    have : c = 2 ∨ c = 3 := by
+      simpa [exH, opAppend, splices, create, init, upd, fuelOf, append, appendLeaf, setPO, rawAppend] using hc
+    rcases this with rfl | rfl <;> decide
 
-/-- `normalize` and `cloneNode(True)` keep all forest invariants, so that histories mixing them with the sixteen list
-    operations stay inside `forest_reachable`.  Proved so far: `normalize_clone_keep_forest_partial`.
-    The `hist` stream checks the invariant on the real objects after every such step. -/
-def normalize_clone_keep_forest_statement : Prop :=
-  ∀ (h : Heap) (s : Id), NoAlias h → NoAttr2 h → Inv h → Acyclic h → Owned h → WF h → s < h.next → h.kind s ≠ .frag →
-    (Inv (normalize (fuelOf h) h s) ∧ Acyclic (normalize (fuelOf h) h s) ∧ Owned (normalize (fuelOf h) h s) ∧
-      WF (normalize (fuelOf h) h s)) ∧
-    (Inv (opClone h s true).1.1 ∧ Acyclic (opClone h s true).1.1 ∧ Owned (opClone h s true).1.1 ∧
-      WF (opClone h s true).1.1)
+/-- **`normalize` keeps every forest invariant**: after normalising a non-fragment node of a well-formed forest the
+    heap is again a well-formed forest.  The parent links hold throughout the pop-all-then-rebuild loop (the items still
+    to come are listed nowhere), the old edges that remain are original edges and the merged text nodes are fresh leaves. -/
+theorem normalize_keeps_forest (h : Heap) (s : Id) (ha : NoAlias h) (hb : NoAttr2 h) (hinv : Inv h) (hac : Acyclic h)
+    (ho : Owned h) (hw : WF h) (hs : s < h.next) (hk : h.kind s ≠ .frag) :
+    NoAlias (normalize (fuelOf h) h s) ∧ NoAttr2 (normalize (fuelOf h) h s) ∧ Inv (normalize (fuelOf h) h s) ∧
+    Acyclic (normalize (fuelOf h) h s) ∧ Owned (normalize (fuelOf h) h s) ∧ WF (normalize (fuelOf h) h s) := by
+  have ht := treeBelow_of_forest h s hinv hac hw hk hs
+  have ns := Proofs.DomNormalize.norm_spec (fuelOf h) h s ⟨ha, fun n _ => hb n, hw.1, hs, ht⟩
+  exact ⟨ns.noAlias, fun n => ns.attr2none n (hb n), ns.inv hinv hw.2 hk, Proofs.DomNormalize.acyclic_of_normSpec ns hw.2 hac, ns.owned ho,
+    ns.closed, ns.fresh hw.2⟩
 
-/-- a deep clone `isEqualNode` its original (`Node.__eq__`, model `eqNode`), both ways.  Not proved: the shapes are
-    equal to every depth below the fuel (`clone_equal_disjoint`), but `eqNode` with the driver's fuel equals the
-    comparison of the *whole* trees only when the fuel exceeds the height of the subtree, and no bound of the height
-    by the number of allocated nodes has been proved.  The driver evaluates `eqNode` at every `cloneNode(True)` of
-    every history and the harness compares it with `==` / `isEqualNode` of the real objects (flag `q`). -/
-def clone_isEqualNode_statement : Prop :=
-  ∀ (h : Heap) (s : Id), NoAlias h → NoAttr2 h → Inv h → Acyclic h → WF h → s < h.next →
-    eqNode (fuelOf (opClone h s true).1.1) (opClone h s true).1.1 (opClone h s true).1.2 s = true ∧
-    eqNode (fuelOf (opClone h s true).1.1) (opClone h s true).1.1 s (opClone h s true).1.2 = true
+/-- the same with attribute fragments elsewhere in the heap: it is enough that no node *below `s`* holds a fragment under
+    another attribute key; the attribute fragments of all other nodes stay what they were -/
+theorem normalize_keeps_forest_local (h : Heap) (s : Id) (ha : NoAlias h)
+    (hb : ∀ n ∈ (DomTree.abs (fuelOf h) (toLL h) s).ids, h.attr2 n = none) (hinv : Inv h) (hac : Acyclic h)
+    (ho : Owned h) (hw : WF h) (hs : s < h.next) (hk : h.kind s ≠ .frag) :
+    NoAlias (normalize (fuelOf h) h s) ∧ Inv (normalize (fuelOf h) h s) ∧
+    Acyclic (normalize (fuelOf h) h s) ∧ Owned (normalize (fuelOf h) h s) ∧ WF (normalize (fuelOf h) h s) ∧
+    (∀ n : Nat, n < h.next → (normalize (fuelOf h) h s).attr2 n = h.attr2 n) ∧
+    (∀ n : Nat, h.attr2 n = none → (normalize (fuelOf h) h s).attr2 n = none) := by
+  have ht := treeBelow_of_forest h s hinv hac hw hk hs
+  have ns := Proofs.DomNormalize.norm_spec (fuelOf h) h s ⟨ha, hb, hw.1, hs, ht⟩
+  exact ⟨ns.noAlias, ns.inv hinv hw.2 hk, Proofs.DomNormalize.acyclic_of_normSpec ns hw.2 hac, ns.owned ho,
+    ⟨ns.closed, ns.fresh hw.2⟩, ns.attr2old, ns.attr2none⟩
 
-/-- `normalize` also normalises the fragments held under other attribute keys (`attr2`), of the node and of every
-    element below it, also when the element never had a child list.  Not proved: `Proofs/DomNormalize.lean` assumes
-    `NoAttr2` for the whole heap; the model transcribes the loop over `attributes` and the harness checks on the real
-    objects, after every `normalize`, that no two text nodes are adjacent anywhere below the node, attribute-held
-    fragments included (flag `n`). -/
-def normalize_attribute_fragments_statement : Prop :=
-  ∀ (h : Heap) (e f : Id) (g : Nat), NoAlias h → Inv h → Acyclic h → WF h → e < h.next → h.attr2 e = some f →
-    g ≤ fuelOf h →
-    (DomTree.abs g (toLL (normalize (fuelOf h) h e)) f).shape = (DomTree.abs g (toLL h) f).normalize.shape
+/-- a step of a mixed history: one of the sixteen list operations, `cloneNode(True)` or `normalize` of a node -/
+inductive Step
+  | op (o : Op)
+  | cloneDeep (s : Id)
+  | normalize (s : Id)
+
+def applyStep (h : Heap) : Step → Heap
+  | .op o => applyOp h o
+  | .cloneDeep s => (opClone h s true).1.1
+  | .normalize s => Model.Dom.normalize (fuelOf h) h s
+
+/-- every step meets its precondition (clone / normalize: an allocated non-fragment node) in the state it is applied to -/
+def ValidSteps : Heap → List Step → Prop
+  | _, [] => True
+  | h, .op o :: ss => Pre h o ∧ NotAncestor h o ∧ Allocated h o ∧ ValidSteps (applyOp h o) ss
+  | h, .cloneDeep s :: ss => s < h.next ∧ h.kind s ≠ .frag ∧ ValidSteps (opClone h s true).1.1 ss
+  | h, .normalize s :: ss => s < h.next ∧ h.kind s ≠ .frag ∧ ValidSteps (Model.Dom.normalize (fuelOf h) h s) ss
+
+/-- **every history that mixes the sixteen list operations with `cloneNode(True)` and `normalize` stays a well-formed
+    forest** (parent links of listed children, no duplicates, no cycle, owner documents, well-formed lists) -/
+theorem forest_reachable_all (ss : List Step) : ∀ h, NoAlias h → NoAttr2 h → Inv h → Acyclic h → Owned h → WF h →
+    ValidSteps h ss →
+    NoAlias (ss.foldl applyStep h) ∧ NoAttr2 (ss.foldl applyStep h) ∧ Inv (ss.foldl applyStep h) ∧
+    Acyclic (ss.foldl applyStep h) ∧ Owned (ss.foldl applyStep h) ∧ WF (ss.foldl applyStep h) := by
+  induction ss with
+  | nil => intro h ha hb hi hac ho hw _; exact ⟨ha, hb, hi, hac, ho, hw⟩
+  | cons st ss ih =>
+    intro h ha hb hi hac ho hw hv
+    cases st with
+    | op o =>
+      have := inv_step h o ha hi hv.1
+      have hb' : NoAttr2 (applyOp h o) := fun n => by rw [attr2_step h o ha hi hv.1]; exact hb n
+      exact ih _ this.1 hb' this.2 (acyclic_step h o ha hi hv.1 hv.2.1 hac) (owner_preserved h o ha hi hv.1 ho)
+        (wf_step h o ha hi hv.1 hv.2.2.1 hw) hv.2.2.2
+    | cloneDeep s =>
+      obtain ⟨c1, c2, c3, c4, c5, c6⟩ := clone_keeps_forest h s ha hb hi hac ho hw hv.1 hv.2.1
+      exact ih _ c1 c2 c3 c4 c5 c6 hv.2.2
+    | normalize s =>
+      obtain ⟨c1, c2, c3, c4, c5, c6⟩ := normalize_keeps_forest h s ha hb hi hac ho hw hv.1 hv.2.1
+      exact ih _ c1 c2 c3 c4 c5 c6 hv.2.2
+
+example : ValidSteps exH [.cloneDeep 1, .normalize 1, .op (.pop 1 0)] :=
+  ⟨by decide, by decide, by decide, by decide, trivial, trivial, trivial, trivial⟩
+
+/-! ## fragments held under other attribute keys -/
+
+/-- **`normalize` also normalises the fragment held under another attribute key** (`attributes['title']`, the model's
+    `attr2`): for a non-text, non-fragment node `e` of a well-formed forest holding the fragment `f`, after
+    `e.normalize()` the subtree of `f` and the subtree of `e` itself are the normal forms of what they were, at every
+    depth up to the driver's fuel.
+    Hypotheses beyond the forest invariants: the part below `f` is a tree, disjoint from the part below `e` (a
+    fragment held as an attribute is not also somebody's child), and no node strictly below `e` or below `f` holds a
+    further attribute fragment (nested attribute fragments are normalised by the model and checked by the harness
+    flag `n`, but are outside this theorem). -/
+theorem normalize_attribute_fragments (h : Heap) (e f : Id) (ha : NoAlias h) (hinv : Inv h) (hac : Acyclic h)
+    (hw : WF h) (he : e < h.next) (hf : f < h.next) (hk : h.kind e ≠ .text) (hkf : h.kind e ≠ .frag)
+    (hb : h.attr2 e = some f)
+    (hbf : ∀ n ∈ (DomTree.abs (h.next + 1) (toLL h) f).ids, h.attr2 n = none)
+    (hbe : ∀ n ∈ (DomTree.abs (fuelOf h) (toLL h) e).ids, n ≠ e → h.attr2 n = none)
+    (htf : (DomTree.abs (h.next + 1) (toLL h) f).ids.Nodup)
+    (hdisj : ∀ n ∈ (DomTree.abs (h.next + 1) (toLL h) f).ids, n ∉ (DomTree.abs (fuelOf h) (toLL h) e).ids)
+    (g : Nat) (hg : g ≤ h.next + 1) :
+    (DomTree.abs g (toLL (normalize (fuelOf h) h e)) f).shape = (DomTree.abs g (toLL h) f).normalize.shape ∧
+    (DomTree.abs g (toLL (normalize (fuelOf h) h e)) e).shape = (DomTree.abs g (toLL h) e).normalize.shape := by
+  have hte : (DomTree.abs (fuelOf h) (toLL h) e).ids.Nodup := treeBelow_of_forest h e hinv hac hw hkf he
+  have e2 : fuelOf h = ((h.next : Nat) + 1) + 1 := rfl
+  rw [e2] at hte hbe hdisj ⊢
+  have hky : (toLL h).kind e ≠ .text := by
+    simp only [toLL_kind]; exact fun e' => hk ((kindOf_text _).mp e')
+  have key := Proofs.DomNormalize.norm_attr2 (h.next + 1) h e f ha hw.1 he hf hk hb hbf htf ?_ hte hdisj
+  · exact ⟨key.1 g hg, key.2 g (Nat.le_succ_of_le hg)⟩
+  intro n hn
+  have hnd := hte
+  rw [Proofs.DomNormalize.abs_succ_node hky] at hnd hbe
+  simp only [DomTree.Tree.ids, toLL_kids] at hnd hbe
+  obtain ⟨hsnot, _⟩ := List.nodup_cons.mp hnd
+  exact hbe n (List.mem_cons_of_mem _ hn) (fun e' => hsnot (e' ▸ hn))
+
+/-- hence, after `normalize`, no two text nodes are adjacent anywhere below the node nor anywhere below the fragment it
+    holds under another attribute key (what the harness flag `n` checks on the real objects) -/
+theorem normalize_attribute_fragments_no_adjacent_text (h : Heap) (e f : Id) (ha : NoAlias h) (hinv : Inv h)
+    (hac : Acyclic h) (hw : WF h) (he : e < h.next) (hf : f < h.next) (hk : h.kind e ≠ .text) (hkf : h.kind e ≠ .frag)
+    (hb : h.attr2 e = some f)
+    (hbf : ∀ n ∈ (DomTree.abs (h.next + 1) (toLL h) f).ids, h.attr2 n = none)
+    (hbe : ∀ n ∈ (DomTree.abs (fuelOf h) (toLL h) e).ids, n ≠ e → h.attr2 n = none)
+    (htf : (DomTree.abs (h.next + 1) (toLL h) f).ids.Nodup)
+    (hdisj : ∀ n ∈ (DomTree.abs (h.next + 1) (toLL h) f).ids, n ∉ (DomTree.abs (fuelOf h) (toLL h) e).ids)
+    (g : Nat) (hg : g ≤ h.next + 1) :
+    DomTree.noAdjacentText [DomTree.abs g (toLL (normalize (fuelOf h) h e)) f] = true ∧
+    DomTree.noAdjacentText [DomTree.abs g (toLL (normalize (fuelOf h) h e)) e] = true := by
+  obtain ⟨h1, h2⟩ := normalize_attribute_fragments h e f ha hinv hac hw he hf hk hkf hb hbf hbe htf hdisj g hg
+  constructor
+  · rw [Proofs.DomTree.noAdjacentText_congr (us := [(DomTree.abs g (toLL h) f).normalize]) (by simp [DomTree.shapeL, h1])]
+    exact normalize_merges_adjacent_text _
+  · rw [Proofs.DomTree.noAdjacentText_congr (us := [(DomTree.abs g (toLL h) e).normalize]) (by simp [DomTree.shapeL, h2])]
+    exact normalize_merges_adjacent_text _
+
+/-- non-vacuity: an element holding, under another attribute key, a fragment with two adjacent text nodes -/
+def exA : Heap :=
+  let h1 := (create init 0 .elem 0 []).1
+  let h2 := (create h1 0 .frag 0 []).1
+  let h3 := (create h2 0 .text 0 [97]).1
+  let h4 := (create h3 0 .text 0 [98]).1
+  setAttr2 (opAppend (opAppend h4 2 3).1 2 4).1 1 2
+
+example : exA.attr2 1 = some 2 ∧ exA.kids 2 = [3, 4] ∧ exA.kind 1 = .elem ∧ exA.kind 2 = .frag := by decide
+example : (DomTree.abs (exA.next + 1) (toLL exA) 2).ids.Nodup ∧
+    (∀ n ∈ (DomTree.abs (exA.next + 1) (toLL exA) 2).ids, n ∉ (DomTree.abs (fuelOf exA) (toLL exA) 1).ids) ∧
+    (∀ n ∈ (DomTree.abs (exA.next + 1) (toLL exA) 2).ids, exA.attr2 n = none) := by decide
+example : (DomTree.abs 3 (toLL (normalize (fuelOf exA) exA 1)) 2).shape = .node .frag 0 [.text [97, 98]] := by rfl
 
 end PlasVerif.Properties.C06
